@@ -8,22 +8,22 @@ void Set(void* new_value, std::uint64_t i);
 
 void SetDefault(void* new_value, std::uint64_t i);
 
+std::uint64_t NextFreeIndex();
+
 template <typename Type>
 class ThreadLocalPtrProxy final {
-  inline static std::uint64_t sNextFreeIndex = 0;
-
  public:
-  ThreadLocalPtrProxy() noexcept : _i(sNextFreeIndex++) {
+  ThreadLocalPtrProxy() noexcept : _i(NextFreeIndex()) {
   }
 
-  ThreadLocalPtrProxy(Type* value) noexcept : _i(sNextFreeIndex++) {
+  ThreadLocalPtrProxy(Type* value) noexcept : _i(NextFreeIndex()) {
     if (value != nullptr) {
       SetDefault(value, _i);
     }
   }
   ThreadLocalPtrProxy(ThreadLocalPtrProxy&& other) noexcept : _i(other._i) {
   }
-  ThreadLocalPtrProxy(const ThreadLocalPtrProxy& other) noexcept : _i(sNextFreeIndex++) {
+  ThreadLocalPtrProxy(const ThreadLocalPtrProxy& other) noexcept : _i(NextFreeIndex()) {
     SetDefault(GetImpl(other._i), _i);
   }
 
@@ -36,10 +36,7 @@ class ThreadLocalPtrProxy final {
     return *this;
   }
   ThreadLocalPtrProxy& operator=(const ThreadLocalPtrProxy& other) noexcept {
-    if (this->Get() == other.Get()) {
-      return *this;
-    }
-    SetDefault(GetImpl(other._i), _i);
+    Set(GetImpl(other._i), _i);
     return *this;
   }
 
@@ -47,7 +44,7 @@ class ThreadLocalPtrProxy final {
   ThreadLocalPtrProxy(ThreadLocalPtrProxy<U>&& other) noexcept : _i(other._i) {
   }
   template <typename U>
-  ThreadLocalPtrProxy(const ThreadLocalPtrProxy<U>& other) noexcept : _i(sNextFreeIndex++) {
+  ThreadLocalPtrProxy(const ThreadLocalPtrProxy<U>& other) noexcept : _i(NextFreeIndex()) {
     SetDefault(GetImpl(other._i), _i);
   }
 
@@ -58,7 +55,7 @@ class ThreadLocalPtrProxy final {
   }
   template <typename U>
   ThreadLocalPtrProxy& operator=(const ThreadLocalPtrProxy<U>& other) noexcept {
-    SetDefault(GetImpl(other._i), _i);
+    Set(GetImpl(other._i), _i);
     return *this;
   }
 
